@@ -1,6 +1,7 @@
 """C10 - WAL recovery after crash or corruption yields a clean prefix or an error.
 
-1. TLC checks exhaustively, on a bounded domain of pre-crash states x crash images x damage, that recovery in
+1. TLC checks exhaustively, on a bounded domain of pre-crash states (optionally the result of a history of
+   appends and TruncateLog calls) x crash images x damage, that recovery in
    the shape of the implementation (WalRecovery!Model) satisfies the property (RecoveryOk), and that every
    repaired rule / recorded finding is necessary for that (mutant configurations must be refuted).
 2. spec -> code: the same TLC run exports every abstract image with the model's outcome; harness/cmd/walrecover
@@ -108,6 +109,9 @@ def _describe(o):
         o["codec"], o["seg"], o["sizes"], o["synced"], o["commit"], o["rs"], o["lost"], o["idx"])
     if d["field"] != "none":
         s += " damage=%s/%s@%d(val %s)" % (d["field"], d["cls"], d["rec"], d.get("val"))
+    if o.get("hist"):
+        s = "history=[%s, then the appends that complete sizes] " % ", ".join(
+            "append%s+TruncateLog(%d)" % (r["app"], r["keep"]) for r in o["hist"]) + s
     if o["post"]:
         s += " then-append=%s" % o["post"]
     s += " -> recovery %s %s entries=%s" % (ob["res"], ("(" + ob["where"][:120] + ")") if ob["where"] else "", ob["ents"])
@@ -165,7 +169,7 @@ def _process(ctx, binp, images, label, state, from_spec):
 
 def _mutants(ctx):
     """Every repaired rule and every recorded finding must be necessary: TLC has to refute the mutants."""
-    names = ["SizeOverflowChecked", "IdxRobust", "ZeroTail", "RolloverFlushes", "EmptyReported", "Unguarded"]
+    names = ["SizeOverflowChecked", "IdxRobust", "ZeroTail", "RolloverFlushes", "EmptyReported", "TruncClearsTail", "Unguarded"]
 
     def one(nm):
         return ctx.tlc("WalRecoveryMC", "walrec-mutant-%s.cfg" % nm, workers=3, label="mutant-" + nm,
@@ -212,12 +216,16 @@ def run(ctx):
         "codec v1 (no checksum): crash images at record granularity and size-field damage (no panic, entries in front "
         "of the damage intact) only",
         "the commit offset handed to recovery is not above the synced offset of the same node",
+        "histories: rounds of appends + TruncateLog in front of the final appends, executed through the real calls; "
+        "TruncateLog flushes the segment, so what it keeps is durable and what it cleared stays cleared in a crash image",
     ]
     binp = ctx.go_build("walrecover")
     state = {"kf": {}, "diffs": 0, "reported": 0, "sampled": {}}
 
     # 1 + 2 + 3: laws and export in one TLC run per configuration, then the real code, then TLC as judge
-    cfgs = ["quick-v2", "quick-v1"] if quick else ["thorough-v2a", "thorough-v2b", "thorough-v2c", "thorough-v1"]
+    # *-hist: pre-crash states that are the result of a history of appends and TruncateLog calls
+    cfgs = (["quick-v2", "quick-hist", "quick-v1"] if quick else
+            ["thorough-v2a", "thorough-hist", "thorough-hist2", "thorough-v2b", "thorough-v2c", "thorough-v1"])
     for c in cfgs:
         if not quick and ctx.left() < 420:
             ctx.log("budget: skipping configuration %s" % c)
